@@ -87,9 +87,11 @@ let () =
             if List.length parts <> 3 || not (List.for_all bits6 parts) then "BAD unparsable impl line (or FloatCmpOps::epsilon() does not return what epsilon(e) stored)"
             else begin
               let fin = is_fin p e a && is_fin p e b && is_fin p e eps in
+              let nanop = is_nan p e a || is_nan p e b in
               let chk which (o : string) =
                 let g i = o.[i] = '1' in
-                if not fin then "ok"
+                if nanop then (if o = "010000" then "ok" else "BAD " ^ which ^ ": a NaN operand must compare not-equal and neither less nor greater")
+                else if not fin then "ok"
                 else if not (c17_cmp_laws (c17_flt p e a b) (c17_fgt p e a b) (g 0) (g 1) (g 2) (g 3) (g 4) (g 5))
                 then "BAD " ^ which ^ " results violate the comparison algebra (ne=!eq, gt/lt/ge/le derived, exactly one of lt/eq/gt)"
                 else begin
@@ -118,26 +120,42 @@ let () =
         let r = c17_veq p e s eps a b in
         let sv = b01 r ^ b01 (not r) in
         let v6 = String.concat "" (List.map b01 [r; c17_vne p e s eps a b; c17_vgt p e s eps a b; c17_vlt p e s eps a b; c17_vge p e s eps a b; c17_vle p e s eps a b]) in
-        let mo = v6 ^ " " ^ (if n = m && n = 1 then v6 else if n = m && n >= 2 && n <= 3 then sv else "--") ^ " " ^ v6 in
+        (* epsilon defaulted (DefaultEpsilon of the vector type = that of the scalar), style defaulted, FieldVector<T,2> defaulted epsilon *)
+        let en st ep = let q = c17_veq p e st ep a b in b01 q ^ b01 (not q) in
+        let d1 = en s (c17_default_eps p e s) and d2 = en c17_default_cstyle (c17_default_eps p e c17_default_cstyle) in
+        let mo = v6 ^ " " ^ (if n = m && n = 1 then v6 else if n = m && n >= 2 && n <= 3 then sv else "--") ^ " " ^ v6
+                 ^ " " ^ d1 ^ " " ^ d2 ^ " " ^ (if n = m && n = 2 then d1 else "--") in
         let orc = (match il with
           | None -> "-"
           | Some l ->
             let allfin = List.for_all (is_fin p e) (eps :: a @ b) in
-            if not allfin then "ok" else
+            let hasnan = n = m && List.exists2 (fun x y -> is_nan p e x || is_nan p e y) a b in
+            if hasnan && is_fin p e eps then
+              (* abs(x - y) <= ... is false when x or y is NaN: a vector with such a component is not tolerantly equal to anything *)
+              (if List.for_all (fun pt -> pt = "--" || (String.length pt >= 2 && String.sub pt 0 2 = "01")) (String.split_on_char ' ' l) then "ok"
+               else "BAD a vector with a NaN component compares tolerantly equal")
+            else if not allfin then "ok" else
             let q = c17_to_dy p e in
-            let comp = if n <> m then [Some false] else List.map2 (fun x y -> c17_eq_verdict p e s (q eps) (q x) (q y)) a b in
-            let expected = if List.mem (Some false) comp then Some false
-                           else if List.for_all (fun v -> v = Some true) comp then Some true else None in
-            (match expected with
-             | None -> "ok"
-             | Some x -> let want = b01 x ^ b01 (not x) in
-               let parts = String.split_on_char ' ' l in
-               let pre pt = pt = "--" || (String.length pt >= 2 && String.sub pt 0 2 = want) in
-               let laws pt = String.length pt <> 6 ||
-                 (let g i = pt.[i] = '1' in g 1 = not (g 0) && g 4 = (g 2 || g 0) && g 5 = (g 3 || g 0) && not (g 2 && g 3) && (not (g 0) || (not (g 2) && not (g 3)))) in
-               if not (List.for_all pre parts && List.length parts = 3) then "BAD vector eq is not the conjunction of the component comparisons (expected " ^ want ^ ")"
-               else if not (List.for_all laws parts) then "BAD vector gt/lt/ge/le violate ne=!eq, ge=gt||eq, le=lt||eq, at most one of lt/eq/gt"
-               else "ok")) in
+            let expect st epd =
+              let comp = if n <> m then [Some false] else List.map2 (fun x y -> c17_eq_verdict p e st epd (q x) (q y)) a b in
+              if List.mem (Some false) comp then Some false
+              else if List.for_all (fun v -> v = Some true) comp then Some true else None in
+            let parts = String.split_on_char ' ' l in
+            if List.length parts <> 6 then "BAD unparsable impl line" else
+            let pre want pt = pt = "--" || (String.length pt >= 2 && String.sub pt 0 2 = want) in
+            let okp st epd pts = (match expect st epd with None -> true | Some x -> List.for_all (pre (b01 x ^ b01 (not x))) pts) in
+            let laws pt = String.length pt <> 6 ||
+              (let g i = pt.[i] = '1' in g 1 = not (g 0) && g 4 = (g 2 || g 0) && g 5 = (g 3 || g 0) && not (g 2 && g 3) && (not (g 0) || (not (g 2) && not (g 3)))) in
+            let nth = List.nth parts in
+            (* documented defaults: 8 * machine epsilon for the relative styles (default style relativeWeak) *)
+            let dw = c17_dy_pow2 (Z.sub (z_of_int 4) p) in
+            let ddef st = (match st with C17_Absolute -> c17_to_dy p e (c17_default_eps p e C17_Absolute) | _ -> dw) in
+            if not (okp s (q eps) [nth 0; nth 1; nth 2]) then "BAD vector eq is not the conjunction of the component comparisons"
+            else if not (okp s (ddef s) [nth 3; nth 5]) then "BAD vector eq with defaulted epsilon is not the conjunction of the component comparisons at the documented default"
+            else if not (okp C17_RelWeak dw [nth 4]) then "BAD vector eq with defaulted style and epsilon is not the conjunction at the documented defaults"
+            else if not (List.for_all laws parts) then "BAD vector gt/lt/ge/le violate ne=!eq, ge=gt||eq, le=lt||eq, at most one of lt/eq/gt"
+            else if not (List.for_all (fun pt -> pt = "--" || String.length pt < 2 || pt.[1] <> pt.[0]) parts) then "BAD vector ne is not !eq"
+            else "ok") in
         mo, orc
       | "round" | "trunc" ->
         let isround = t.(0) = "round" in
@@ -147,7 +165,7 @@ let () =
         let res = if isround then c17_round_fix p e r ty s eps v else c17_trunc_fix p e r ty s eps v in
         let oo = { c17_ops_cstyle = s; c17_ops_rstyle = r; c17_ops_eps = eps } in                       (* FloatCmpOps<T,cs,rs> ops(eps) *)
         let reso = if isround then c17_ops_round p e oo ty v else c17_ops_trunc p e oo ty v in
-        let res0 = if isround then c17_round p e r ty s eps v else c17_trunc p e r ty s eps v in
+        let res0 = if isround then c17_round_fix p e r ty s eps v else c17_trunc_v2 p e r ty s eps v in   (* the repository before fixes/C17-4.patch *)
         asfound := (if res0 = res then "=" else ires_str res0);
         let orc = (match il with
           | None -> "-"
@@ -180,8 +198,9 @@ let () =
           | "ipow" -> c17_ipower ty a b, (if Z.ltb b Z0 then None else Some (c17_spec_power a b))
           | "fact" -> c17_factorial ty a, Some (c17_spec_factorial a)
           | "binom" ->
-            let r0 = c17_binomial ty a b and r1 = c17_binomial_fix ty a b in
-            asfound := (if r0 = r1 then "=" else ires_str r0);
+            let r1 = c17_binomial_fix ty a b in
+            (if Z.ltb (Z.abs a) (z_of_int 100000) then
+               let r0 = c17_binomial ty a b in asfound := (if r0 = r1 then "=" else ires_str r0));
             r1, Some (c17_spec_binomial_fast a b)
           | _ -> C17_Val (c17_isign_src a), Some (c17_spec_sign a)) in      (* literals re-read from math.hh; = c17_isign by C17_source_literals *)
         let orc = (match il, exact with
@@ -269,6 +288,7 @@ let () =
         let fb x = c17_of_bits p e w (zin hw (z_of_hex x)) in
         let eps = (if t.(6) = "-" then c17_default_eps p e s else fb t.(6)) and v = fb t.(7) in
         let res = if isround then c17_round_fix p e r ty s eps v else c17_trunc_fix p e r ty s eps v in
+        (if not isround then let r0 = c17_trunc_v2 p e r ty s eps v in asfound := (if r0 = res then "=" else ires_str r0));
         let orc = (match il with
           | None -> "-"
           | Some l ->
